@@ -114,9 +114,10 @@ class Check:
         cov['legs'] = self.legs
         cov['known_findings_matched'] = {k: len(v) for k, v in matched.items()}
         cov['notes'] = self.notes[:50]
-        if self.level == 'model_checking' and (cov['states'] < 1 or cov['transitions'] < 1):
-            # evidence schema falls back to the generic keys; keep them meaningful
-            pass
+        if cov['states'] < 1 or cov['transitions'] < 1:
+            # no TLC model run in this check (yet): the schema then expects the generic exploration keys only
+            cov.pop('states')
+            cov.pop('transitions')
         ev = {'property_id': self.pid, 'tier': self.tier, 'seed': self.seed, 'level': self.level,
               'coverage': cov, 'assumptions': self.assumptions, 'wall_s': round(time.time() - self.t0, 2),
               'violations': len(violations)}
